@@ -42,3 +42,12 @@ def c03_scheme_rootless(ctx):
     if len(nl) != 0 or len(p) == 0:
         return False
     return all_of([any_of([sc == s for s in USES_NETLOC]), p[0] != "/"])
+
+
+def c09_bracketed_non_ip(ctx):
+    """F15: the authority text had brackets, the stored netloc has none (the host was not an IP literal)"""
+    a = ctx.notes.get("authority_text")
+    st = ctx.notes.get("stored_netloc")
+    if a is None or st is None:
+        return False
+    return all_of(["[" in a, ("[" in st) == False])  # noqa: E712
